@@ -1190,3 +1190,44 @@ CHECKS["C23"]["text"] += (
     " Models with two for-equations sharing the index name and the subscript expression but not the range (equal length, "
     "different bounds) are included, each loop judged on its own range."
 )
+
+CHECKS["C01"]["technique"] = (
+    'explicit-state BFS over cache-event histories on a real cache folder (deviation-bounded), results edited in '
+    'place by the caller + every prefix and every single-byte damage of a stored pickle, classified by plain pickle'
+)
+
+CHECKS["C01"]["text"] = (
+    "Every history of length <= 4 with <= 2 deviations (quick; thorough: 'wide' <= 4 with <= 3 over everything, "
+    "'deep' <= 6 with <= 3 without the near-duplicates) over parse(OK1/OK2/BAD, expiration, always_update), parse "
+    'of 8 near-duplicate texts (a base text with a multi-line / blank- / tab- / case- / accent-carrying string '
+    'literal and its image under LF->CRLF, trailing-blank stripping, blank-run collapsing, tab expansion, '
+    'lower-casing, accent change, NFD: different texts, different trees; all 56 ordered pairs), module reload, '
+    'version change (incl. .dirty), clock jumps, entry faults (empty, truncated, garbage, class gone, other-version '
+    'entry holding a different tree, one damaged entry per further exception type that single-byte damage makes '
+    'pickle raise -- IndexError, MemoryError, OverflowError, TypeError, UnicodeDecodeError, ValueError --, data '
+    'column NULL), layout faults and file faults is executed on the real parse() with the clock and version behind '
+    'seams; every returned tree is compared node for node (types included) with the uncached parse of the same '
+    'text, None iff syntax error; then the caller edits the returned tree in place (every reachable container and '
+    'pymoca object) and keeps it, so a later result that shares an object with an earlier one differs; no row for '
+    'the broken text, no None stored, .dirty leaves the folder untouched. Plus every 16th (quick) / every '
+    '(thorough) prefix of the stored pickle, followed by two parses. Plus single-byte damage of the stored pickle '
+    '(every offset x {0x00, 0xff, xor 1, +1}; thorough: x all 255 values, byte deleted, byte inserted) and a data '
+    'column holding NULL / an integer / a text: each damaged entry is classified by plain pickle.loads outside '
+    'pymoca (equal tree / different object / raises X); parse() is run on the first and last entry of every outcome '
+    "'raises X' and 'equal' as a history of its own with and without reload (quick: 92 histories over 12 277 "
+    'classified) and on every such entry (thorough: 790 864 of 925 886); entries that load to a different object '
+    'are counted, not judged.'
+)
+
+CHECKS["C01"]["note"] = (
+    'Deviation = fault, version change, clock jump or parse of a near-duplicate. Abstract state = database '
+    'abstraction (layouts, metadata keys, rows with stored key, version, data hash incl. storage class, last_hit '
+    'bucketed by the cut points parse() compares with) + initialised flag + version + results handed out per text '
+    'in this process (0..2, wide search 0..3). One process and one folder (sharing is C02); process state is '
+    'assumed to live in pymoca.parser (module reload = new process); near-duplicates with equal trees (outer blank '
+    'lines, BOM, comments) cannot violate the statement and are left out; pickles that load to a foreign object '
+    "under the *current* version are outside the alphabet (decided per entry by the harness's own pickle.loads). "
+    'All pickle.loads and parse() calls run under RLIMIT_AS = current size + 512 MB: a damaged length byte can make '
+    "the unpickler ask for tens of GB, which then is 'raises MemoryError'. Byte damage on the pickles of OK1 and "
+    'OK2 only; no multi-byte damage other than truncation.'
+)
